@@ -166,6 +166,15 @@ pub fn c14(a: &Args) {
             jobs_list.push((base + t, mpath.clone(), f.n, lines, j, t % 2 == 0, None));
         }
     }
+    // a very long session: 70 000 cheap requests (request numbers beyond 16 bits) with a few expensive ones in between
+    {
+        let (f, _) = pick_model(&mut rng, 4);
+        let mpath = write_model(&a.out, "long", &f);
+        let base = jobs_list.len();
+        let mut lines: Vec<String> = Vec::with_capacity(70_050);
+        for i in 0..70_000usize { lines.push(if i % 9973 == 17 { "random l 3000 s 5".to_string() } else if i % 2 == 0 { "count".to_string() } else { format!("sat a {}", 1 + (i % f.n as usize)) }); }
+        jobs_list.push((base, mpath, f.n, lines, if a.thorough() { 8 } else { 4 }, true, None));
+    }
     let outdir = a.out.clone();
     let par = 6;
     let chunks: Vec<Vec<_>> = (0..par).map(|k| jobs_list.iter().filter(|x| x.0 % par == k).cloned().collect()).collect();
@@ -205,7 +214,7 @@ pub fn c14(a: &Args) {
         }
         if nlines < 5 { out.sample(format!("{what}: input {:?} -> {:?}", input, got)); }
     }
-    out.finish("the real binary `ddnnife stream -j N` (N in 1..32) on batches of 1..2000 request lines of very different cost (count, sat, core, per-variable count, seeded sampling up to 1000 samples, atomic sets, 25-literal counts), 6 processes at a time for CPU contention, two thirds of the runs with seeded delays at the pull/send/recv/print points; stdout compared with -j 1, one answer per line, clean exit on `exit` and on end of input; the event trace of every run is replayed through the Lean state machine (every event must be enabled; final state must have printed everything in order)");
+    out.finish("the real binary `ddnnife stream -j N` (N in 1..32) on batches of 1..2000 request lines of very different cost (and one session of 70 000 lines) (count, sat, core, per-variable count, seeded sampling up to 1000 samples, atomic sets, 25-literal counts), 6 processes at a time for CPU contention, two thirds of the runs with seeded delays at the pull/send/recv/print points; stdout compared with -j 1, one answer per line, clean exit on `exit` and on end of input; the event trace of every run is replayed through the Lean state machine (every event must be enabled; final state must have printed everything in order)");
 }
 
 // ------------------------------------------------------------------------------------------------
